@@ -30,7 +30,8 @@ REG = Registry(
 )
 
 OPS = ["set_weights", "set_means", "set_variances", "set_floors", "em_step", "deepcopy", "pickle", "hdf5_new",
-       "hdf5_load_other", "set_floors", "set_variances", "set_weights", "lower_floors_and_shrink", "lend_to_other_machine"]
+       "hdf5_load_other", "set_floors", "set_variances", "set_weights", "lower_floors_and_shrink", "lend_to_other_machine",
+       "other_feature_dimension"]
 
 
 def g_history(draw):
@@ -42,13 +43,17 @@ def g_history(draw):
     train, _ = gen.data_from(draw, p, gen.integer(draw, 3, 12), kind="bulk", r=r)
     n_ops = gen.integer(draw, 1, 12)
     ops = []
+    cur_mu = p["means"]
+    is_map = gen.choice(draw, [False, False, True])
     for _ in range(n_ops):
         name = gen.choice(draw, OPS)
+        if name == "other_feature_dimension" and is_map:
+            name = "set_means"  # a MAP machine is tied to its prior's dimension
         op = {"op": name}
         if name == "set_weights":
             op["w"] = gen.weights(draw, C, r)
         elif name == "set_means":
-            op["mu"] = p["means"] + scales[None, :] * r.normal(0, 1, (C, F))
+            op["mu"] = cur_mu + scales[None, :] * r.normal(0, 1, (C, F))
         elif name == "set_variances":
             lo = gen.choice(draw, [0, -6, -12])  # possibly far below the floors
             op["var"] = scales[None, :] ** 2 * np.exp(r.uniform(-2, 2, (C, F))) * 10.0 ** r.integers(lo, 1, (C, F))
@@ -79,11 +84,24 @@ def g_history(draw):
         elif name == "lend_to_other_machine":
             op["factor"] = gen.choice(draw, [0.3, 2.0, 50.0])
             op["train"] = gen.boolean(draw)
+        elif name == "other_feature_dimension":
+            # the same object is given Gaussians over another number of features (floors, means, variances through
+            # the public setters); from then on the history continues with data of that dimension
+            F2 = gen.choice(draw, [f for f in (1, 2, 3, 4, 5) if f != F])
+            sc2 = gen.feature_scales(draw, F2, lo=-2, hi=2)
+            op["mu"] = sc2[None, :] * r.normal(0, 3, (C, F2))
+            op["var"] = sc2[None, :] ** 2 * np.exp(r.uniform(-2, 2, (C, F2)))
+            # scalar floors: array floors of the old shape cannot be combined with parameters of the new one
+            op["floor"] = gen.choice(draw, [float(EPS), float(1e-3 * sc2.min() ** 2), float(1e-1 * sc2.min() ** 2)])
+            idx = r.integers(0, C, 8)
+            op["probe"] = op["mu"][idx[:4]] + np.sqrt(op["var"][idx[:4]]) * r.normal(0, 1, (4, F2))
+            op["train"] = op["mu"][idx] + np.sqrt(op["var"][idx]) * r.normal(0, 1, (8, F2))
+            F, scales, cur_mu = F2, sc2, op["mu"]
         # evaluating a likelihood refreshes whatever the machine derives lazily, so it is itself an operation of the
         # history: after some operations only the floors invariant (which reads nothing derived) is looked at
         op["observe"] = gen.choice(draw, [True, True, False])
         ops.append(op)
-    return {"p": p, "probe": probe, "train": train, "ops": ops, "map": gen.choice(draw, [False, False, True]),
+    return {"p": p, "probe": probe, "train": train, "ops": ops, "map": is_map,
             "C2": gen.integer(draw, 1, 5)}
 
 
@@ -184,6 +202,11 @@ def c_history(ctx, case):
             if op.get("train"):
                 b.fit(train)
             b.log_likelihood(probe)
+        elif name == "other_feature_dimension":
+            g.variance_thresholds = float(op["floor"])
+            g.means = np.array(op["mu"], float)
+            g.variances = np.array(op["var"], float)
+            probe, train = np.array(op["probe"], float), np.array(op["train"], float)
         elif name == "deepcopy":
             g = copy.deepcopy(g)
         elif name == "pickle":
